@@ -432,4 +432,30 @@ def cases():
               {"name": "app2", "sources": ["main.c"], "selects": ["net", "quiet", "-core"]}],
              defaults={"module": {"selects": ["?logging", {"net": ["tls"]}], "uses": ["core", "?logging"]}, "app": {"selects": ["core"]}})
     out.append((f, {}))
+    # 57: YAML maps with several keys are read in DOCUMENT order (not sorted, not hashed): a conditional dependency map
+    #     whose later key sorts first decides between two conflicting modules; optional-source and export maps likewise
+    mods = [{"name": "net", "sources": ["net.c"]}, {"name": "fs", "sources": ["fs.c"]},
+            {"name": "crypto_hw", "sources": ["hw.c"], "conflicts": ["crypto_sw"]}, {"name": "crypto_sw", "sources": ["sw.c"], "conflicts": ["crypto_hw"]},
+            {"name": "multi", "sources": ["multi.c", {"zeta": ["z_first.c"], "alpha": ["a_second.c"], "net": ["n_third.c"]}]},
+            {"name": "zeta"}, {"name": "alpha"}]
+    f = base(mods, [{"name": "app", "sources": ["main.c"], "depends": ["net", "fs", {"net": ["?crypto_hw"], "fs": ["?crypto_sw"]}, "multi", "zeta", "alpha"]},
+                    {"name": "app2", "sources": ["main.c"], "selects": ["zeta", "alpha", {"zeta": ["net"], "alpha": ["fs"], "fs": ["multi"]}]}])
+    f["laze-project.yml"][0]["contexts"][0]["rules"] = [dict(RULES[0], export=[{"ZVAR": "z", "AVAR": "a", "MVAR": "${X}"}, "X"]), RULES[1]]
+    out.append((f, {}))
+    # 58: download with an EMPTY patch list: the patch step is still emitted and its tag file is what users wait for
+    mods = [{"name": "sdk", "download": {"git": {"url": "https://example.org/sdk.git", "commit": "abc123"}, "patches": []}, "sources": ["sdk.c"]},
+            {"name": "drv", "uses": ["sdk"], "sources": ["drv.c"]},
+            {"name": "inside", "srcdir": "${build-dir}/dl/./sdk/sub", "sources": ["inside.c"]}]
+    out.append((dlbase(mods, [{"name": "app", "sources": ["main.c"], "depends": ["drv", "sdk", "inside"]}]), {}))
+    # 59: an empty document (nothing between two `---`) before a document whose defaults go down through subdirs, while
+    #     the NEXT file that is loaded starts with a document that has defaults and subdirs too: documents are numbered
+    #     across files, empty ones included, and defaults are handed down by that number
+    ctxdoc = {"contexts": [{"name": "default", "rules": RULES, "env": {"bindir": "${build-dir}/${builder}/${app}"}}], "builders": [{"name": "b1"}, {"name": "b2"}],
+              "subdirs": ["common"]}
+    f = {"laze-project.yml": [ctxdoc, {}, {"defaults": {"app": {"blocklist": ["b2"], "env": {"global": {"CFLAGS": ["-DBOARD_APP"]}}}}, "subdirs": ["board_apps"]}],
+         "common/laze.yml": [{"defaults": {"app": {"env": {"global": {"CFLAGS": ["-DCOMMON_APP"]}}}, "module": {"env": {"global": {"CFLAGS": ["-DCOMMON_MOD"]}}}}, "subdirs": ["drivers"],
+                              "apps": [{"name": "common_app", "sources": ["c.c"]}]}],
+         "common/drivers/laze.yml": [{"apps": [{"name": "driver_test", "sources": ["d.c"]}], "modules": [{"name": "drv", "sources": ["drv.c"]}]}],
+         "board_apps/laze.yml": [{"apps": [{"name": "board_app", "sources": ["b.c"], "selects": ["?drv"]}]}]}
+    out.append((f, {}))
     return out
